@@ -113,7 +113,7 @@ def gen_scheme(rng, n=None, topology=None):
         km2.append((km1[0][0], rate()))
         km2.append(((comps[0], comps[0]), rate()))
     # initial populations
-    pat = str(rng.choice(["first", "single", "several", "all"]))
+    pat = str(rng.choice(["first", "single", "several", "all"] if n >= 2 else ["first", "all"]))
     j = np.zeros(n)
     if pat == "first":
         j[0] = float(rng.choice([1.0, 2.0, 0.3]))
@@ -130,6 +130,8 @@ def gen_scheme(rng, n=None, topology=None):
         exclude = [cand[int(rng.integers(len(cand)))]]
         if sum(j[i] for i in range(n) if comps[i] not in exclude) <= 0:
             exclude = []
+    if not exclude and rng.integers(6) == 0:
+        exclude = list(comps)  # nothing is normalised: the populations enter as given (also a single one != 1)
     # involved compartments only (a compartment without any K entry is dropped by the implementation)
     involved = {c for (a, b), _ in km1 + km2 for c in (a, b)}
     if len(involved) < n:
@@ -391,6 +393,84 @@ def run_shard(spec, rec):
         c = check_equivalence(rng, rec, cap)
         if c:
             rec.case(("equiv", c["topology"], c["n"]), c["n"] >= 2, features=[f"equivalence={c['topology']}"])
+        c = check_split(rng, rec, cap)
+        if c:
+            rec.case(("split", c["ta"], c["tb"], c["na"], c["nb"]), c["na"] + c["nb"] >= 3, features=["split-dataset"])
+
+
+def check_split(rng, rec, cap):
+    """Two decay megacomplexes of ONE dataset sharing its initial concentration: each sees the jointly normalised
+    populations of its own compartments (e.g. a single populated compartment holding 0.5) and must return
+    expm(K_block t) j_block for them."""
+    from glotaran.model.item import fill_item
+    from glotaran.parameter import Parameters
+    from vf.gen.simple import all_builtin_model_class
+
+    a = gen_scheme(rng, n=int(rng.integers(1, 4)), topology=str(rng.choice(["chain", "chain_loss", "branch", "parallel"])))
+    b = gen_scheme(rng, n=int(rng.integers(1, 4)), topology=str(rng.choice(["chain", "chain_loss", "reversible", "parallel"])))
+    ren = {c: "u" + c[1:] for c in b["compartments"]}
+    b = dict(b, compartments=[ren[c] for c in b["compartments"]], km1=[[[ren[x], ren[y]], v] for (x, y), v in b["km1"]],
+             km2=[[[ren[x], ren[y]], v] for (x, y), v in b["km2"]], exclude=[ren[c] for c in b["exclude"]])
+    comps = a["compartments"] + b["compartments"]
+    order = [comps[i] for i in rng.permutation(len(comps))]
+    jd = dict(zip(comps, a["j"] + b["j"]))
+    exclude = [c for c in a["exclude"] + b["exclude"] if len(a["exclude"]) != len(a["compartments"])][:1]
+    if sum(jd[c] for c in comps if c not in exclude) <= 0:
+        exclude = []
+    times = a["times"] if rng.integers(2) else b["times"]
+    pl, kms = [], {}
+    for name, blk in (("ka", a), ("kb", b)):
+        m = {}
+        for (x, y), v in blk["km1"] + blk["km2"]:
+            pl.append([f"{name}_{x}_{y}", float(v), {"vary": False}])
+            m[(x, y)] = f"{name}_{x}_{y}"  # a later entry of km2 overrides km1: same semantics as one matrix
+        kms[name] = {"matrix": m}
+    for c in order:
+        pl.append([f"j_{c}", float(jd[c]), {"vary": False}])
+    spec = {"megacomplex": {"mca": {"type": "decay", "k_matrix": ["ka"]}, "mcb": {"type": "decay", "k_matrix": ["kb"]}}, "k_matrix": kms,
+            "initial_concentration": {"j1": {"compartments": list(order), "parameters": [f"j_{c}" for c in order], "exclude_from_normalize": exclude}},
+            "dataset": {"d1": {"megacomplex": ["mca", "mcb"] if rng.integers(2) else ["mcb", "mca"], "initial_concentration": "j1"}}}
+    ctx = {"split": True, "a": a, "b": b, "order": order, "exclude": exclude, "times": times}
+    jn = dict(zip(order, K.normalise([jd[c] for c in order], order, exclude)))
+    try:
+        model = all_builtin_model_class()(**spec)
+        dm = fill_item(model.dataset["d1"], model, Parameters.from_list(pl))
+        outs = {mc.label: mc.calculate_matrix(dm, np.array([0.0]), np.asarray(times, dtype=float)) for mc in dm.megacomplex}
+    except Exception as e:  # noqa
+        if not all(K.spectrum_ok(oracle_K(blk, blk["compartments"]))[0] for blk in (a, b)):
+            rec.skip("K has complex or near-degenerate eigenvalues (outside the property): evaluation raised")
+            return None
+        rec.violation(f"split:raises:{type(e).__name__}", ctx, f"{type(e).__name__}: {str(e)[:200]}")
+        return None
+    ok_all = True
+    for label, blk in (("mca", a), ("mcb", b)):
+        labels, matrix = list(outs[label][0]), np.asarray(outs[label][1])
+        bo = [c for c in order if c in blk["compartments"]]
+        Kmat = oracle_K(blk, bo)
+        if not K.spectrum_ok(Kmat)[0]:
+            rec.skip("K has complex or near-degenerate eigenvalues (outside the property)")
+            continue
+        j = np.array([jn[c] for c in bo])
+        if sorted(labels) != sorted(bo):
+            rec.violation("split:labels", ctx, f"{label}: labels {labels} for compartments {bo}")
+            return None
+        tol, condV = tolerance(Kmat, j, times)
+        if condV > 1e8:
+            rec.skip("eigenvector matrix ill-conditioned (cond > 1e8)")
+            continue
+        got = np.column_stack([matrix[:, labels.index(c)] for c in bo])
+        ref = K.concentrations(Kmat, j, times)
+        if np.abs(got - ref).max() > tol:
+            ref = K.concentrations_mp(Kmat, j, times)
+        rec.count("split_blocks_compared")
+        dev = float(np.abs(got - ref).max())
+        if dev > tol:
+            i, c = np.unravel_index(np.argmax(np.abs(got - ref)), got.shape)
+            first_only = bool(j[0] != 0 and (j[1:] == 0).all())
+            rec.violation(f"split:concentration-mismatch:{'single-population-not-1' if first_only and j[0] != 1 else 'other'}", ctx,
+                          f"megacomplex {label} compartment {bo[c]} at t={times[i]:.4g}: {got[i, c]!r} vs expm {ref[i, c]!r} (populations seen by this megacomplex {j.tolist()}, path {'closed-form' if cap.get('sequential_path') else 'eigen'})")
+            ok_all = False
+    return {"na": a["n"], "nb": b["n"], "ta": a["topology"], "tb": b["topology"]} if ok_all else None
 
 
 def replay(case, rec):
@@ -400,8 +480,8 @@ def replay(case, rec):
     case = dict(case)
     case["km1"] = [[tuple(k), v] for k, v in case["km1"]]
     case["km2"] = [[tuple(k), v] for k, v in case["km2"]]
-    if case.get("equivalence"):
-        rec.note("equivalence cases are regenerated by seed")
+    if case.get("equivalence") or case.get("split"):
+        rec.note("equivalence / split cases are regenerated by seed")
         return
     model, params = build_general(case, order)
     labels, matrix = evaluate(model, params, case["times"])
